@@ -20,13 +20,27 @@ pub mod c14;
 pub mod c18;
 pub mod c19;
 pub mod c23;
+pub mod c24;
+pub mod c30;
+pub mod c33;
+pub mod c34;
 pub mod c36;
 pub mod c22;
 pub mod c25;
+pub mod c26;
+pub mod c27;
+pub mod c28;
 pub mod c32;
 
 pub fn registry() -> Vec<(&'static str, fn() -> Property)> {
     vec![
+        ("C34", c34::property),
+        ("C33", c33::property),
+        ("C30", c30::property),
+        ("C24", c24::property),
+        ("C28", c28::property),
+        ("C27", c27::property),
+        ("C26", c26::property),
         ("C25", c25::property),
         ("C22", c22::property),
         ("C06", c06::property),
